@@ -98,18 +98,18 @@ def judge_metadata(kind, m, b, opts):
                 continue
             got = q.query(m, '%%%d.%s' % (idx, nme))
             if norm_md(got) != norm_md(exp):
-                return '%%%d.%s is %r, the bytes hold %r' % (idx, nme, got, exp)
+                return ('parameter-value/section%d' % idx, '%%%d.%s is %r, the bytes hold %r' % (idx, nme, got, exp))
     idxs = [sec.get_metadata('index') for sec in m.sections]
     if kind == 'info':
         if 5 in idxs:
-            return 'metadata-only decode went on to the end section (sections %r)' % (idxs,)
+            return ('info-only-reads-on', 'metadata-only decode went on to the end section (sections %r)' % (idxs,))
         if any(p.name == 'template_data' and p.value is not None for sec in m.sections for p in sec):
-            return 'metadata-only decode holds template data'
+            return ('info-only-holds-data', 'metadata-only decode holds template data')
     else:
         if idxs != list(fr.order):
-            return 'full decode has sections %r, the message has %r' % (idxs, list(fr.order))
+            return ('full-decode-sections', 'full decode has sections %r, the message has %r' % (idxs, list(fr.order)))
         if not any(p.name == 'template_data' and p.value is not None for sec in m.sections for p in sec):
-            return 'full decode holds no template data'
+            return ('full-decode-without-data', 'full decode holds no template data')
     return None
 
 
